@@ -146,6 +146,14 @@ def check_c10(run):
     def one(i):
         c = cases[i]
         doc = nested_spec() if c["doc"] == "nested" else base_spec()
+        if c["doc"] == "noids":
+            ok = {"200": {"description": "ok"}}
+            for pi in doc["paths"].values():
+                for m, op in pi.items():
+                    if isinstance(op, dict) and "operationId" in op:
+                        del op["operationId"]
+            doc["paths"]["/pets"] = {"get": {"responses": ok}, "post": {"responses": ok}}
+            doc["paths"]["/other"] = {"post": {"operationId": "GetPets", "responses": ok}, "get": {"operationId": "listOther", "responses": ok}}
         for s in sites(doc):
             d = doc
             for k in s[:-1]:
